@@ -15,7 +15,7 @@ import (
 func init() {
 	register(&Property{
 		ID:          "C02",
-		Explanation: "Per-operation necessary conditions of 'the selectable set equals the set defined by the add/update/remove calls'. R1: for each pool (RoundRobin.servers, Rebalancer.servers) every append to the pool is executable only on the not-found edge of the identity lookup for the same URL argument (decided exactly by deleting that edge and testing reachability of the append), so an upsert never creates a second record for a member. R2: RemoveServer returns a non-nil error and performs no store on the not-found edge, and on its success path removes the record and passes the reset; the rebalancer's upsert/remove pass, in order, the call on the wrapped balancer, the shadow-list update and reset(), and every error return precedes any shadow-list store. R3: in both ServeHTTPs the selection-error edge reaches the error handler and a return without reaching the downstream handler; the selection routine returns a non-nil error on the empty-pool edge and on the zero-maximum edge. R4: one identity function over exactly {Scheme, Host, Path}: every lookup of a pool record by URL calls it, and the sticky-cookie comparator and the hash normaliser use the same field set. R5 (ownership): every URL stored into the request handed downstream (and returned by exported NextServer) is the result of utils.CopyURL or of NextServer, and every URL stored into a new pool record is a CopyURL of the caller's argument — so nothing a downstream handler or caller does to its URL alters the pool. R6: every UpsertServer/RemoveServer call on the wrapped balancer, on every call path from every exported method of the rebalancer, is made with the rebalancer mutex held exclusively (must-lockset at call sites), so the shadow list and the wrapped pool change atomically. R7 (= C01.R2): every pool change resets the rotation state. R2 also: once the wrapped balancer accepted a server, every failing return of the rebalancer's add passes RemoveServer on that same wrapped balancer. R4 also: every URL field read by the identity functions is an operand of ==/!= against the same field of the other URL (no transformed comparison). R8 (= C01.R7): the sweep re-arms exactly at level <= 0.",
+		Explanation: "Per-operation necessary conditions of 'the selectable set equals the set defined by the add/update/remove calls'. R1: for each pool (RoundRobin.servers, Rebalancer.servers) every append to the pool is executable only on the not-found edge of the identity lookup for the same URL argument (decided exactly by deleting that edge and testing reachability of the append), so an upsert never creates a second record for a member. R2: RemoveServer returns a non-nil error and performs no store on the not-found edge, and on its success path removes the record and passes the reset; the rebalancer's upsert/remove pass, in order, the call on the wrapped balancer, the shadow-list update and reset(), and every error return precedes any shadow-list store. R3: in both ServeHTTPs the selection-error edge reaches the error handler and a return without reaching the downstream handler; the selection routine returns a non-nil error on the empty-pool edge and on the zero-maximum edge. R4: one identity function over exactly {Scheme, Host, Path}: every lookup of a pool record by URL calls it, and the sticky-cookie comparator and the hash normaliser use the same field set. R5 (ownership): every URL stored into the request handed downstream (and returned by exported NextServer) is the result of utils.CopyURL or of NextServer, and every URL stored into a new pool record is a CopyURL of the caller's argument — so nothing a downstream handler or caller does to its URL alters the pool. R6: every UpsertServer/RemoveServer call on the wrapped balancer, on every call path from every exported method of the rebalancer, is made with the rebalancer mutex held exclusively (must-lockset at call sites), so the shadow list and the wrapped pool change atomically. R7 (= C01.R2): every pool change resets the rotation state. R2 also: once the wrapped balancer accepted a server, every failing return of the rebalancer's add passes RemoveServer on that same wrapped balancer. R4 also: every URL field read by the identity functions is an operand of ==/!= against the same field of the other URL (no transformed comparison). R8 (= C01.R7): the sweep re-arms exactly at level <= 0. R2 also: after the rebalancer created its own record no failing return is reachable. R9: server options store nothing before a failing return; the default weight is stored into freshly allocated records only.",
 		NotDecided: []string{
 			"'an added server with positive weight is selected within one full rotation' (follows from the arithmetic of C01, not decided)",
 			"agreement with a reference set after every prefix of every history as a whole: the rules are the per-operation necessary conditions of it",
@@ -851,6 +851,8 @@ func mutantsC02() []Mutant {
 		{Name: "rb-rollback-through-own-remove", File: "roundrobin/rebalancer.go", Old: "\t\t_ = rb.next.RemoveServer(u)\n", New: "\t\t_ = rb.removeServer(u)\n", Expect: "C02.R2"},
 		{Name: "identity-trims-slash", File: "roundrobin/rr.go", Old: "return a.Path == b.Path && a.Host == b.Host && a.Scheme == b.Scheme", New: "return strings.TrimSuffix(a.Path, \"/\") == strings.TrimSuffix(b.Path, \"/\") && a.Host == b.Host && a.Scheme == b.Scheme", More: []Edit{{"roundrobin/rr.go", "import (\n", "import (\n\t\"strings\"\n"}}, Expect: "C02.R4"},
 		{Name: "rearm-only-below-zero", File: "roundrobin/rr.go", Old: "\t\t\tif r.currentWeight <= 0 {", New: "\t\t\tif r.currentWeight < 0 {", Expect: "C02.R8"},
+		{Name: "default-weight-on-update", File: "roundrobin/rr.go", Old: "\t\tfor _, o := range options {\n\t\t\tif err := o(s); err != nil {\n\t\t\t\treturn err\n\t\t\t}\n\t\t}\n\t\tr.resetState()\n", New: "\t\tfor _, o := range options {\n\t\t\tif err := o(s); err != nil {\n\t\t\t\treturn err\n\t\t\t}\n\t\t}\n\t\tif s.weight == 0 {\n\t\t\ts.weight = defaultWeight\n\t\t}\n\t\tr.resetState()\n", Expect: "C02.R9"},
+		{Name: "rb-record-before-balancer", File: "roundrobin/rebalancer.go", Old: "\tif err := rb.next.UpsertServer(u, options...); err != nil {\n\t\treturn err\n\t}\n\tweight, _ := rb.next.ServerWeight(u)\n\tif err := rb.upsertServer(u, weight); err != nil {\n\t\t_ = rb.next.RemoveServer(u)\n\t\treturn err\n\t}\n", New: "\tif err := rb.upsertServer(u, 0); err != nil {\n\t\treturn err\n\t}\n\tif err := rb.next.UpsertServer(u, options...); err != nil {\n\t\treturn err\n\t}\n", Expect: "C02.R2"},
 	}
 }
 
